@@ -35,7 +35,13 @@ CLAIMED = {
              "histories only); 'no process addresses / nothing written outside the region / a byte copy behaves identically' "
              "is true by type in the value-semantic model and sampled on the C side by the harness (guard zones filled with a "
              "byte pattern or with fake slot images, exactly sized heap regions under ASan); remove_by_idx is total in the "
-             "index after fix 1eb7244 (EINVAL outside the table), the theorems carry no index hypothesis.",
+             "index after fix 1eb7244 (EINVAL outside the table) and getnext after fix 5acdcf6 (EINVAL for a negative index, "
+             "index untouched), the theorems carry no index hypothesis (getnext_total); the constructor is total in the "
+             "region size (init_total, the unsigned wrap for regions smaller than the header is modelled) and every "
+             "documented-invalid call is the identity on the image (inv_identity); systematic glue streams: every key length "
+             "1..40, 65534, 65535 through put/get/remove, the string family and putstr/getstr (65536 and above: "
+             "correspondence only), qhasharr() on every region size 0..265 bytes guarded and exactly sized, "
+             "qhasharr_calculate_memsize, 31 invalid calls per `inv` operation.",
         technique="Lean 4 proof (local slot invariants + ghost ranks, preservation lemma per image transformation, induction "
                   "over operation lists) + K-gen layout + differential correspondence with an independent Python "
                   "well-formedness checker",
